@@ -10,6 +10,7 @@ loader on the same file).  Three observation points on the real code:
       shifted sheet index / coordinate is visible through the translator's own reference path
 """
 import datetime as dt
+import math
 import re
 
 import openpyxl
@@ -28,7 +29,7 @@ RULE = ('generated workbooks: 1..6 (thorough ..12) worksheets in random order, o
         'in the workbook so a value identifies its coordinate.  Non-trivial: a planted cell that is not at A1 of the first '
         'sheet / whose row or column differs from its position among the stored cells of its row; distinct by '
         '(workbook seed, sheet, coordinate)')
-ASSUMPTIONS = ['openpyxl writes what the generator planted; its regular loader is the independent reading of stored value/type',
+ASSUMPTIONS = ['openpyxl writes what the generator planted (floats with 16 significant digits: the stored number is the expectation); its regular loader is the independent reading of stored value/type',
                'time / timedelta cells are outside the type list of the statement: recorded, not judged',
                'size of an empty worksheet: {0,0} and openpyxl\'s {1,1} both accepted']
 FLOORS = {'quick': {'evaluations': 4000, 'nontrivial': 2000, 'counters': {'grid_cells_checked': 5000, 'excel_parse_hooked': 100}},
@@ -68,6 +69,9 @@ def gen_value(rng, uid, kinds):
         return k, 1000 + uid + rng.choice([0.5, 0.25, 0.125, 0.1, 0.3])
     if k == 'intfloat':
         return k, float(5000 + uid)
+    if k == 'float17':
+        # doubles that need 16-17 significant digits: an xlsx stores them exactly (repr round trip)
+        return k, rng.choice([math.pi, 2 / 3, 0.1 + 0.2, 1 / 3, 0.1234567890123456, -98765.43210987654, 1e-7 / 3, 123456789.12345679]) * (1 + uid) + rng.random()
     if k == 'bool':
         return k, bool(uid % 2)
     if k == 'text':
@@ -88,7 +92,7 @@ def gen_value(rng, uid, kinds):
     raise ValueError(k)
 
 
-KINDS = ['int', 'int', 'negint', 'float', 'float', 'intfloat', 'bool', 'text', 'text', 'qtext', 'numtext', 'errtext', 'date',
+KINDS = ['int', 'int', 'negint', 'float', 'float', 'float17', 'float17', 'intfloat', 'bool', 'text', 'text', 'qtext', 'numtext', 'errtext', 'date',
          'datetime', 'time']
 
 
@@ -144,7 +148,7 @@ def gen_book(rng, tier, far=False):
             plant[(si, r, c)] = (k, v)
         sheets.append({'title': t, 'cells': cells, 'layout': lay})
     # probe formulas: on each sheet, in a cell that is free, read one planted constant (own or other sheet)
-    consts = [(k, v) for k, v in plant.items() if v[0] in ('int', 'negint', 'float', 'text', 'bool', 'numtext', 'qtext')]
+    consts = [(k, v) for k, v in plant.items() if v[0] in ('int', 'negint', 'float', 'float17', 'text', 'bool', 'numtext', 'qtext')]
     probes = {}
     if consts and not far:
         for si, sh in enumerate(sheets):
@@ -233,7 +237,7 @@ def check_book(ctx, spec, titles, plant, probes, name, far=False):
         return
     for si, (t, d) in enumerate(lv):
         for key, v in exp_sheets[si].items():
-            if key not in d or not same_const(d[key], v):
+            if key not in d or not (same_const(d[key], v) or (isinstance(v, float) and isinstance(d[key], float) and abs(d[key] - v) <= 1e-15 * abs(v))):
                 if not isinstance(v, (dt.time,)):
                     r.count('oracle_disagreement:value')
     # ---- L2: the grid the translator saw ----------------------------------------------------------
@@ -307,6 +311,9 @@ def check_book(ctx, spec, titles, plant, probes, name, far=False):
         pos_in_row.setdefault((si, rr), []).append(cc)
     for (si, rr, cc), (k, v) in plant.items():
         a = wbspec.a1(rr, cc)
+        if isinstance(v, float) and (rr, cc) in lv[si][1] and isinstance(lv[si][1][(rr, cc)], (int, float)):
+            v = lv[si][1][(rr, cc)]       # the STORED number: openpyxl writes 16 significant digits, the file is the truth
+            plant[(si, rr, cc)] = (k, v)
         out = book.value(si, a)
         r.ev()
         r.count('const_kind:' + k)
